@@ -69,6 +69,11 @@ theorem mem_getrange {p : Plane} {b : Rect} {k : Key} (hd : 0 < p.gridsize) :
   · rintro ⟨gy', hy, gx', hx, rfl, rfl⟩; exact ⟨hx, hy⟩
   · rintro ⟨hx, hy⟩; exact ⟨gy, hy, gx, hx, rfl, rfl⟩
 
+/-- The hand-written overlap test IS the negation of the regenerated skip condition of `Plane.find`. -/
+theorem overlaps_eq_not_skip (o : PObj) (q : Rect) : overlaps o q = !(plane_find_skip o.x0 o.y0 o.x1 o.y1 q) := by
+  obtain ⟨x0, y0, x1, y1⟩ := q
+  rfl
+
 /-- Well-formed box. -/
 def WfRect (b : Rect) : Prop := b.1 ≤ b.2.2.1 ∧ b.2.1 ≤ b.2.2.2
 
@@ -80,7 +85,7 @@ theorem overlap_share_cell {p : Plane} (hd : 0 < p.gridsize) (hx : p.x0 ≤ p.x1
   unfold WfRect bboxOf at ho
   unfold WfRect at hq
   simp only at ho hq
-  unfold overlaps plane_find_skip at hov
+  unfold overlaps at hov
   simp only [Bool.not_eq_true', Bool.or_eq_false_iff, decide_eq_false_iff_not, Rat.not_le] at hov
   obtain ⟨⟨⟨h1, h2⟩, h3⟩, h4⟩ := hov
   -- a point shared by both boxes
